@@ -18,9 +18,17 @@ EXPLANATION = (
     "coq/Model/Inline.v) instantiated with the regenerated patterns and rule order: every position a handler returns is at or "
     "beyond the end of its match (C01_inline_cursor_advances) and the parse never runs out of fuel - it terminates for "
     "every text, both hard_wrap settings and every reference table (C01_inline_parser_terminates, by induction on the text "
-    "length with nesting fuel 2n+3). The model is tied to the source by control skeletons with constants of its 17 "
-    "methods, 6 helpers and the state class, and by a token-tree correspondence run. NOT proved: the block and list "
-    "handlers, plugin rules, and the recursion depth of CPython itself. The oracle runs real conversions in a separate "
+    "length with nesting fuel 2n+3); (5) BLOCK PARSER: for the executable model of BlockParser, list_parser and BlockState "
+    "(coq/Model/Block.v: scanner loop, eleven handlers, block quotes with lazy continuation and interrupting blocks, lists "
+    "with their width-dependent item scanner, HTML blocks, reference definitions) instantiated with the regenerated data: "
+    "every accepting handler returns a position beyond the cursor (C01_block_cursor_advances) and every loop terminates - "
+    "block_parse never answers Fuel, for every text (C01_block_parser_loops_terminate); the one delicate case, an HTML block "
+    "handler returning its own start, is excluded by a proved head-form analysis of the regenerated patterns (a line on "
+    "which an HTML rule matched is not blank). The nesting budget of the model answers Exn when used up: the counterpart of "
+    "CPython's RecursionError, which the implementation does raise (known finding alternating-container-lines-recursion, "
+    "found when the proof for a fixed nesting fuel failed). The models are tied to the source by control skeletons with "
+    "constants of every modelled function, regenerated rule orders / patterns / tag lists, and token-tree correspondence "
+    "runs (inline, block, whole document). NOT proved: plugin and directive handlers, CPython's own recursion depth. The oracle runs real conversions in a separate "
     "worker process (crash, hang and RecursionError isolation) over generated documents, nesting pumps up to depth 400 and "
     "hostile code points, for sampled configurations of renderer x escape x hard_wrap x plugin subset x directive style, "
     "in one long-lived process so that cross-instance state shows too.")
